@@ -21,7 +21,7 @@ CLAIMED = {
         "DESIGN.md §6 C08",
     ),
     "C09": (
-        "runtime monitor, crash/panic oracle: token-level programs over the full installed vocabulary with hostile operands, truncated at every fragment boundary, in all four interaction modes; outcome of VM::run observed under catch_unwind with panic-site attribution, error rendering and source location checked, H2 snapshot after the run, default-stack probe in an 8 MiB thread (process death caught by the worker journal), logical step budget",
+        "runtime monitor, crash/panic oracle: token-level programs over the full installed vocabulary with hostile operands, truncated at every fragment boundary, in all four interaction modes; outcome of VM::run observed under catch_unwind with panic-site attribution, error rendering and source location checked, H2 snapshot after the run, default-stack probe in an 8 MiB thread (process death caught by the worker journal), logical step budget; Miri stage (Stacked and Tree Borrows) over the VM; libFuzzer stage (thorough tier) whose inputs are decided by the same oracle",
         "Held on the executions produced: ~2.5e5 (quick) / 2e7 (thorough) VM runs ending in Ok or a located, rendered error; every panic inside /repo, arithmetic overflow, index error, todo!(), unbalanced execution stack, pending shutdown or process death is a violation keyed by (file, function, message). Non-terminating programs are cut by a step budget and not counted.",
         "Totality is sampled, not proved. Runs use a 1 GiB stack except the dedicated default-stack probe. Known finding C09-file-location-panics is reported, not suppressed silently.",
         "DESIGN.md §6 C09",
@@ -51,7 +51,7 @@ CLAIMED = {
         "DESIGN.md §6 C02",
     ),
     "C03": (
-        "runtime monitor: the real Lexer under arbitrary catcode tables / end-line characters and the same sources through a VM with \\catcode/\\endlinechar changed mid-file; token sequence and every token's Tracer::trace compared with a transcription of TeX's scanner (§343-356); panic oracle; Miri stage (Stacked and Tree Borrows) for the lexer's unsafe in-place write with a UTF-8 probe after every token",
+        "runtime monitor: the real Lexer under arbitrary catcode tables / end-line characters and the same sources through a VM with \\catcode/\\endlinechar changed mid-file; token sequence and every token's Tracer::trace compared with a transcription of TeX's scanner (§343-356); panic oracle; Miri stage (Stacked and Tree Borrows) for the lexer's unsafe in-place write with a UTF-8 probe after every token; libFuzzer stage (thorough tier) whose inputs are decided by the same differential oracle",
         "Held on the executions produced: all strings of length <=5 (quick) / <=7 (thorough) over {\\ ^ space newline 5 e e-acute} under 6 tables x 5 end-line chars, 2e6 / 5e7 random adversarial strings with random 16-code tables, 1.2e5 / 3e6 VM runs with just-in-time catcode changes, 240 / 3200 strings under Miri.",
         "Trusts our transcription of TeX §343-356, calibrated on the 76 lexer_tests cases of the repository (incl. TeXbook exercises 8.2-8.6). Trace leniency exactly as DESIGN §6 C03 G (any column inside a ^^ span; first trimmed column for end-line tokens).",
         "DESIGN.md §6 C03",
@@ -93,7 +93,7 @@ CLAIMED = {
         "DESIGN.md §6 C12",
     ),
     "C16": (
-        "runtime monitor: serialize -> deserialize round trip with full consumption on generated op sequences; framing model (TeX §585-591) and panic oracle on arbitrary and mutated bytes; an independent position tracker (h as integer + multiset of unmeasured character widths, v, w/x/y/z, stack, font, page reset) replays the stream before and after VarRemover and compares page, position and font at every typeset character and rule",
+        "runtime monitor: serialize -> deserialize round trip with full consumption on generated op sequences; framing model (TeX §585-591) and panic oracle on arbitrary and mutated bytes; an independent position tracker (h as integer + multiset of unmeasured character widths, v, w/x/y/z, stack, font, page reset) replays the stream before and after VarRemover and compares page, position and font at every typeset character and rule; libFuzzer stage (thorough tier) whose inputs are decided by the same oracles",
         "Held on the executions produced: every opcode with every truncation, every op at every operand-width boundary, 3e5 / 2e7 sequences of 1-200 ops (document-like, anything-anywhere, move-heavy), 5e5 / 3e7 noise and mutated byte strings.",
         "The tracker shares no code with the dvi crate; VarRemover sequences keep cumulative coordinates inside i32 (wrap-around is unspecified). Known finding C16-post-post-absorbs-fnt-num-52 is inherent in the byte format.",
         "DESIGN.md §6 C16",
@@ -105,7 +105,7 @@ CLAIMED = {
         "DESIGN.md §6 C17",
     ),
     "C18": (
-        "runtime monitor: print -> parse round trip on generated lists compared by our own deep comparison (three printing paths), format idempotence and parse(format(s)) == parse(s) on rearranged valid programs, panic oracle and located-error check on mutated texts and token soup",
+        "runtime monitor: print -> parse round trip on generated lists compared by our own deep comparison (three printing paths), format idempotence and parse(format(s)) == parse(s) on rearranged valid programs, panic oracle and located-error check on mutated texts and token soup; libFuzzer stage (thorough tier) whose inputs are decided by the same oracles",
         "Held on the executions produced: 36 golden Box-language files (5e5 nodes), 1e5 / 1e7 generated hlists/vboxes (any scalar but the double quote, all glue orders, extreme scaled values, nested boxes, insertions, marks, adjusts, math, discretionaries, ligatures), 6e4 / 3e6 relayouts, 2.4e5 / 1.7e7 mutated and random texts.",
         "The generator stays inside what lang/convert.rs can express (normal kerns, no whatsits); glue ratios compared by the value their printed form carries. Known finding C18-deep-nesting-overflows-stack is probed in a child process.",
         "DESIGN.md §6 C18",
